@@ -899,6 +899,9 @@ func (e *Engine) valueEq(st *State, x, y Value) Term {
 	case VNil:
 		return e.isNilTerm(st, y)
 	case VSym:
+		if b, ok := y.(VAbs); ok && b.Kind == "json" {
+			return e.valueEq(st, y, x)
+		}
 		if b, ok := y.(VSym); ok && a.T.Sort == b.T.Sort {
 			if a.T.Sort == SStr {
 				// comparison with the empty string is a statement about the length
@@ -943,6 +946,23 @@ func (e *Engine) valueEq(st *State, x, y Value) Term {
 			return BoolLit(a.Kind == b.Kind && a.ID == b.ID)
 		case VNil:
 			return e.isNilTerm(st, a)
+		case VSym:
+			// a decoded JSON value (an `any`) compared with a Go string / bool / number constant or variable
+			if jt, ok := a.Data.(Term); ok && a.Kind == "json" {
+				var enc Term
+				switch b.T.Sort {
+				case SStr:
+					enc = App(SJson, "j.ofstr", b.T)
+				case SBool:
+					enc = App(SJson, "j.ofbool", b.T)
+				case SInt:
+					enc = App(SJson, "j.ofint", b.T)
+				}
+				if enc.S != "" {
+					st.fact(Not(Eq(enc, mkT("JNULL", SJson))))
+					return Eq(jt, enc)
+				}
+			}
 		}
 	case VStruct:
 		if b, ok := y.(VStruct); ok && len(a.F) == len(b.F) {
